@@ -15,8 +15,10 @@ import Chiritori.Lemmas.Decision
   * evaluators are looked up by the configured tag name: `rename_invariant` - renaming both configured names and
     every element name by an injective map preserves the readiness of every element (`conditionHolds`), the
     skip test and the strategy choice.
-  Not proved: the end-to-end statement (it needs `tokenize = textbook` on documents free of delimiter characters,
-  i.e. the WellDelimited theorem of C08, and the position bookkeeping of the rewriting).
+  End to end (Props/C18End.lean, `respell_default`): for default-strategy removals the same piece list under two
+  delimiter pairs is cleaned to the same piece list under the respective pair, tags identical and texts equal up to
+  whitespace.  Not proved: exact equality of the whitespace across a change of delimiters, unwrap-blocks, renamed
+  tags end to end.
 -/
 namespace Chiritori.Props.C18
 open Chiritori Chiritori.Spec
